@@ -765,6 +765,34 @@ def r_positive_test(t):
 
 
 def rule_r0(chk, pyk):
+    # the only thing a kernel method may ask about the separation itself (as opposed to q) is whether it is positive: `rij > c` with a small non-negative literal, in any
+    # spelling (`c < rij`, `not (rij > c)` with the branches swapped, as a conjunct) - the rules below treat the leaves on which such a test failed as the r = 0 case
+    n_r = 0
+    for name, cls in sorted(pyk.items()):
+        for m, fn in sorted(M.methods(cls).items()):
+            if 'rij' not in [a.arg for a in fn.args.args]:
+                continue
+            for i_ in ast.walk(fn):
+                if not isinstance(i_, (ast.If, ast.IfExp)):
+                    continue
+                atoms_ = []
+
+                def split(t_):
+                    if isinstance(t_, ast.BoolOp):
+                        for v_ in t_.values:
+                            split(v_)
+                    elif isinstance(t_, ast.UnaryOp) and isinstance(t_.op, ast.Not):
+                        split(t_.operand)
+                    else:
+                        atoms_.append(t_)
+                split(i_.test)
+                for t_ in atoms_:
+                    if 'rij' in set(x.id for x in ast.walk(t_) if isinstance(x, ast.Name)):
+                        n_r += 1
+                        chk.decide(r_positive_test(t_), 'value-at-zero-separation', '%s.%s:test-on-r@%d' % (name, m, i_.lineno), node=i_, file=KER, func='%s.%s' % (name, m),
+                                   detail_bad='`%s` is not the test "the separation is positive" (rij > c, c a small non-negative literal): the branch written for coincident particles '
+                                              'is taken for separated ones (or the other way round)' % U(t_), detail_ok=U(t_))
+    chk.floor('tests on the separation in kernel methods', n_r, 10)
     for name, cls in sorted(pyk.items()):
         for m in ('gradient', 'dwdq', 'gradient_h', 'kernel'):
             fn = M.methods(cls).get(m)
